@@ -687,14 +687,16 @@ func (t *tree) parseMsgRawText(node *ast.RawTextNode) []ast.Node {
 			start, end = ii[0], ii[1]
 		}
 
+		// All parts keep the position of the text they were cut from. (It is
+		// the position of the END of that text and the text has been through
+		// line joining, so adding offsets to it would point past the text and
+		// possibly past the end of the file.)
 		if start > 0 {
 			r = append(r, &ast.RawTextNode{pos, txt[:start]})
-			pos += ast.Pos(start)
 		}
 
 		if end > start {
 			r = append(r, &ast.MsgPlaceholderNode{pos, "", &ast.MsgHtmlTagNode{pos, txt[start:end]}})
-			pos += ast.Pos(end - start)
 		}
 
 		txt = txt[end:]
